@@ -107,6 +107,8 @@ def run(ctx):
     )
     rule_tab(ctx, F)
     rule_encbits(ctx, F)
+    rule_tabidx(ctx, F)
+    rule_eot(ctx, F)
 
     # ---- siblings
     R = "C18.sib"
@@ -923,3 +925,82 @@ def rule_encbits(ctx, F):
                       "cannot be determined" if not isinstance(bv, list) else [x for x in bv[:g]], per),
                    b.where(bb), detail=("symbol %d of a group with %d octet(s)" % which) if which else None)
     ctx.call_sites += n
+
+
+def rule_tabidx(ctx, F):
+    """A decoder looks a character up in a 128-entry table: every such index (`TABLE[ch as usize]`) is behind a test that
+    puts the character below the table's size -- `ch > 127` refused, `(ch as usize) < TABLE.len()` and the like.  An
+    off-by-one (`> len`) lets exactly U+0080 through, and the lookup panics."""
+    from rulelib import relations, canon_nobb
+    R = "C18.tabidx"
+    ctx.floor(R, 4)
+    n = 0
+    for p, b in sorted(F.bodies.items()):
+        if not re.match(r"^<?utils::base(16|32|64)::", p) or "::test" in p:
+            continue
+        for bi in sorted(b.reachable_blocks()):
+            t = b.blocks[bi]["t"]
+            if t["k"] != "assert" or t["msg"][0] != "bounds":
+                continue
+            ln = const_value(b.term_of_operand(t["msg"][1]))
+            it = deep_strip(b.term_of_operand(t["msg"][2]))
+            if ln != 128 or it[0] != "cast":
+                continue
+            inner = deep_strip(it[2])
+            n += 1
+            ub = None
+            for x, rel, y in relations(b, bi, F):
+                x, y = deep_strip(x), deep_strip(y)
+                for subj in (it, inner):
+                    k = None
+                    if canon_nobb(x) == canon_nobb(subj):
+                        k = const_value(y)
+                        if k is not None and rel in ("<", "<="):
+                            v = k - 1 if rel == "<" else k
+                            ub = v if ub is None else min(ub, v)
+                    yy = y
+                    while yy[0] == "cast":
+                        yy = deep_strip(yy[2])
+                    if canon_nobb(yy) == canon_nobb(subj) and const_value(x) is not None and rel in (">", ">="):
+                        v = const_value(x) - 1 if rel == ">" else const_value(x)
+                        ub = v if ub is None else min(ub, v)
+            ctx.ob(R, b, "alphabet lookup#%d is behind `character < 128`" % n, ub is not None and ub < ln,
+                   "%s indexes a %d-entry table with a character that the tests in front of it only bound by %s: the character "
+                   "U+%04X is let through and the lookup panics (the sibling decoder refuses it with IllegalChar)"
+                   % (p.split("utils::")[-1], ln, ub, ln), b.where(bi))
+    ctx.call_sites += n
+
+
+def rule_eot(ctx, F):
+    """The result of decoding does not depend on how the text is cut into tokens: when a converter is told that a token
+    has ended (EntrySymbol::EndOfToken) it changes nothing of what it has collected so far -- no store into the
+    converter's fields on that arm, in any of the three SymbolConverters (a digit or symbol group may straddle tokens)."""
+    from rulelib import outcome_facts
+    R = "C18.eot"
+    ctx.floor(R, 3)
+    n = 0
+    for p, b in sorted(F.bodies.items()):
+        if not re.match(r"^<utils::base(16|32|64)::SymbolConverter as base::scan::ConvertSymbols<.*>>::process_symbol$", p):
+            continue
+        n += 1
+        bad = []
+        seen_arm = False
+        for bi in sorted(b.reachable_blocks()):
+            if b.blocks[bi].get("c"):
+                continue
+            on_eot = any(isinstance(o, tuple) and o[0] == "variant" and o[1] == "EndOfToken" for tm, o in outcome_facts(b, bi, F))
+            if not on_eot:
+                continue
+            seen_arm = True
+            for st in b.blocks[bi]["s"]:
+                if st[0] == "=" and len(st[1]) > 1 and st[1][0] == 1 and "*" in st[1]:
+                    bad.append(bi)
+            t = b.blocks[bi]["t"]
+            if t["k"] == "call" and t["args"] and deep_strip(b.term_of_operand(t["args"][0])) in (("arg", 1), ("deref", ("arg", 1))) \
+                    and re.search(r"SymbolConverter::\w+$", t["fn"] or ""):
+                bad.append(bi)
+        ctx.ob(R, b, "%s: the end of a token leaves the converter's state alone" % p.split("utils::")[1].split("::")[0], seen_arm and not bad,
+               "%s changes the converter's state when a token ends: what was collected from the end of one token is forgotten, so "
+               "`ABC DEF` decodes differently from `ABCDEF` (and malformed input of odd length is accepted)"
+               % p.split("utils::")[1].split(" as ")[0], b.where(bad[0]) if bad else b.where())
+    ctx.ob(R, "utils::base*::SymbolConverter", "process_symbol impls found", n >= 3, "found %d" % n, nontrivial=False)
